@@ -152,7 +152,35 @@ class ObjFrame(pd.DataFrame, metaclass=_Meta):
             value = value.astype(object)
         super().__setitem__(key, value)
 
+    @property
+    def loc(self):
+        return _ObjLoc(self)
+
     __hash__ = None
+
+
+class _ObjLoc:
+    """.loc of an ObjFrame: a column created by assignment (bt adds a sub-strategy's price column to a universe this way) is object dtype"""
+
+    def __init__(self, df):
+        self._df = df
+        self._loc = pd.DataFrame.loc.fget(df)
+
+    def __getitem__(self, k):
+        return self._loc[k]
+
+    def __setitem__(self, k, v):
+        df = self._df
+        if isinstance(k, tuple) and len(k) == 2 and isinstance(k[1], str) and k[1] not in df.columns:
+            pd.DataFrame.__setitem__(df, k[1], pd.Series([np.nan] * len(df.index), index=df.index, dtype=object))
+            self._loc = pd.DataFrame.loc.fget(df)
+        self._loc[k] = v
+
+    def __call__(self, *a, **k):
+        return self._loc(*a, **k)
+
+    def __getattr__(self, a):
+        return getattr(self._loc, a)
 
 
 for _nm, _op in (('__ge__', operator.ge), ('__gt__', operator.gt), ('__lt__', operator.lt), ('__le__', operator.le),
@@ -195,6 +223,17 @@ class PdShim:
         if getattr(x, '_symdate', False):
             return x
         return pd.Timestamp(x, *a, **k)
+
+    def DatetimeIndex(self, data=None, *a, **k):
+        if data is not None and not isinstance(data, (str, bytes)):
+            try:
+                items = list(data)
+            except TypeError:
+                items = None
+            if items and any(getattr(x, '_symdate', False) for x in items):
+                from .symdate import SymIndex
+                return SymIndex(items, known_sorted=False)
+        return pd.DatetimeIndex(data, *a, **k)
 
 
 def install(bt):
